@@ -864,3 +864,44 @@ func (x *gen) directedXferRemoved() {
 	}
 	c.exec("flush 5")
 }
+
+// directedCQReports (CheckQuorum): the leader is cut off from every peer; its transport keeps
+// reporting the peers unreachable (and a pending snapshot as failed), which is local information,
+// not a sign of life; after two election timeouts of ticks it must have stepped down.
+func (x *gen) directedCQReports() {
+	c := x.c
+	l := x.leader()
+	if l == nil || len(c.alive()) < 3 || !c.base.CheckQuorum {
+		x.idle()
+		return
+	}
+	c.exec("flush 4")
+	if !l.alive || l.rn == nil {
+		return
+	}
+	for _, o := range x.others(l.id) {
+		c.exec(fmt.Sprintf("block %d %d", l.id, o.id))
+	}
+	if x.g.Intn(2) == 0 {
+		c.exec(fmt.Sprintf("propose %d", l.id))
+	}
+	for r := 0; r < 2*l.cfg.ET+3 && !c.stopped && l.alive && l.rn != nil; r++ {
+		if x.g.Intn(3) == 0 {
+			c.exec("tickall")
+		} else {
+			c.exec(fmt.Sprintf("tick %d", l.id))
+		}
+		c.exec(fmt.Sprintf("process %d", l.id))
+		for _, o := range x.others(l.id) {
+			switch x.g.Intn(4) {
+			case 0:
+			case 1:
+				c.exec(fmt.Sprintf("reportsnap %d %d", x.g.Intn(8), x.g.Intn(2)))
+			default:
+				c.exec(fmt.Sprintf("unreach %d %d", l.id, o.id))
+			}
+		}
+	}
+	c.exec("unblock")
+	c.exec("flush 6")
+}
